@@ -2,10 +2,10 @@ package main
 
 import (
 	"fmt"
-	"path/filepath"
 	"go/token"
 	"go/types"
 	"math/big"
+	"path/filepath"
 	"sort"
 	"strings"
 
@@ -1626,7 +1626,9 @@ func (tr *FnTrans) siteFor(alias string) *Site {
 					continue
 				}
 				ct := ch.Type().Underlying().(*types.Chan)
-				gv := func(n string, t types.Type) Val { return tr.introduce("ghost_"+alias+"_"+n, t, "false", "channel operation not on this path") }
+				gv := func(n string, t types.Type) Val {
+					return tr.introduce("ghost_"+alias+"_"+n, t, "false", "channel operation not on this path")
+				}
 				g.Args, g.ParamNames = []Val{gv("ch", ch.Type())}, []string{"ch"}
 				if isSend {
 					g.Args, g.ParamNames = append(g.Args, gv("x", ct.Elem())), []string{"ch", "x"}
@@ -2861,9 +2863,9 @@ func (tr *FnTrans) moveCells(st *BState, et types.Type, moves []cellMove, tag st
 }
 
 type cellMove struct {
-	guard                        string
+	guard                       string
 	dBase, dOff, sBase, sOff, n string
-	dRel                         string // offset of the destination slice value: index j of that slice is move index j-(dOff-dRel)
+	dRel                        string // offset of the destination slice value: index j of that slice is move index j-(dOff-dRel)
 }
 
 type frameFact struct {
